@@ -63,10 +63,5 @@ example : ∃ s g, s6Decode s = .ok (some g) := by
     (ofG_sound _ (ofEdges_wf 2 [(0, 1)])) (by decide)
   exact ⟨a, _, (s6_roundtrip_of_spec _ (ofEdges_wf 2 [(0, 1)]) a h2 h4).1⟩
 
-/-- **regeneration.** `verif/extract` recognised the shape of every format constant of `graph/encoding.go`
-(`Mamba/Gen/CodecConsts.lean`, rewritten from the source on every run); the model `Mamba/Model/Codec.lean` is elaborated
-with those values, so every theorem of this file is re-checked against the constants the source contains now. -/
-theorem gen_constants_found : Gen.Codec.allFound = true := by decide
-
 end C08
 end Codec
